@@ -90,6 +90,16 @@ def _callable(kind, p1, p2):
         return partial(dt.pixel_ft, width_x=p1, width_y=p2)
     if kind == 'olpf':
         return partial(dt.olpf_ft, width_x=p1, width_y=p2)
+    if kind == 'slit':           # objects.slit_ft(width_x, width_y, fx, fy): widths bound POSITIONALLY, frequencies last; 0 = None
+        from prysm import objects
+        return partial(objects.slit_ft, p1 if p1 else None, p2 if p2 else None)
+    if kind == 'pinhole':        # objects.pinhole_ft(radius, fr)
+        from prysm import objects
+
+        def pinhole(fr):             # prysm's jinc divides 0/0 at fr = 0 before patching the sample: silence that warning only
+            with np.errstate(invalid='ignore', divide='ignore'):
+                return objects.pinhole_ft(p1, fr)
+        return pinhole
     if kind == 'fx':
         return lambda fx: 1.0 / (1.0 + p1 * fx * fx + p2 * fx)
     if kind == 'fy':
@@ -492,7 +502,56 @@ def pred_layouts(inp):
     return True, 'ok'
 
 
-PREDS = {'conv_delta': pred_conv_delta, 'conv_comm': pred_conv_comm, 'conv_linear': pred_conv_linear,
+def _difflim_freqs(fno, wvl, k=9):
+    """frequencies [cy/mm] of both signs: 0, inside the band, at and around the cut-off 1000/(wvl*fno), far beyond it"""
+    cut = 1000.0 / (wvl * fno)
+    f = [0.0, cut, -cut, cut * (1 - 1e-9), cut * (1 + 1e-9), 2.5 * cut, -40.0 * cut, 0.5 * cut, -0.5 * cut, 1e-6 * cut]
+    return f + [cut * (j + 1) / (k + 1) * (-1) ** j for j in range(k)]
+
+
+def pred_difflim(inp):
+    """theorem difflim_valid_mtf on the real code: 1 at zero frequency, within [0, 1], even, 0 at and beyond the cut-off; plus: never
+    increasing with |f|, scalar frequency = one-element array, frequencies=None gives the band [0, cut-off] itself, argument untouched"""
+    ot = _impl()[1]
+    fno, wvl = inp['fno'], inp['wavelength']
+    f = np.asarray(inp['freqs'], dtype=float)
+    keep = f.copy()
+    cut = 1000.0 / (wvl * fno)
+    mtf = np.asarray(ot.diffraction_limited_mtf(fno, wvl, frequencies=f))
+    if not np.array_equal(f, keep):
+        return False, 'diffraction_limited_mtf modified the caller\'s frequencies'
+    if mtf.shape != f.shape or not np.isfinite(mtf).all():
+        return False, f'shape {mtf.shape} / non-finite values for {f.shape} frequencies'
+    z = np.asarray(ot.diffraction_limited_mtf(fno, wvl, frequencies=np.zeros(1)))
+    if abs(float(z[0]) - 1.0) > 1e-12:
+        return False, f'MTF(0) = {float(z[0])!r}, not 1'
+    if mtf.min() < -1e-12 or mtf.max() > 1 + 1e-12:
+        return False, f'MTF outside [0, 1]: min {mtf.min()!r} max {mtf.max()!r}'
+    neg = np.asarray(ot.diffraction_limited_mtf(fno, wvl, frequencies=-f))
+    if not np.allclose(neg, mtf, rtol=0, atol=1e-12):
+        k = int(np.argmax(np.abs(neg - mtf)))
+        return False, f'not even: MTF({-f[k]!r}) = {neg[k]!r}, MTF({f[k]!r}) = {mtf[k]!r}'
+    beyond = np.abs(f) >= cut * (1 + 1e-12)
+    if beyond.any() and np.abs(mtf[beyond]).max() > 1e-12:
+        k = int(np.argmax(np.where(beyond, np.abs(mtf), 0)))
+        return False, f'MTF({f[k]!r}) = {mtf[k]!r} beyond the cut-off {cut!r} cy/mm'
+    order = np.argsort(np.abs(f), kind='stable')
+    if (np.diff(mtf[order]) > 1e-12).any():
+        k = int(np.argmax(np.diff(mtf[order]) > 1e-12))
+        return False, f'MTF increases with |f|: MTF({f[order][k]!r}) = {mtf[order][k]!r} < MTF({f[order][k + 1]!r}) = {mtf[order][k + 1]!r}'
+    for k in range(len(f)):
+        one = ot.diffraction_limited_mtf(fno, wvl, frequencies=float(f[k]))
+        if abs(float(one) - float(mtf[k])) > 1e-12:
+            return False, f'scalar frequency {f[k]!r}: {float(one)!r}, as an array element {mtf[k]!r}'
+    n = inp.get('samples', 16)
+    fr, mt = ot.diffraction_limited_mtf(fno, wvl, samples=n)
+    ref = np.asarray(ot.diffraction_limited_mtf(fno, wvl, frequencies=np.asarray(fr)))
+    if len(fr) != n or abs(fr[0]) > 0 or abs(fr[-1] - cut) > 1e-9 * cut or not np.allclose(mt, ref, rtol=0, atol=1e-12):
+        return False, f'frequencies=None: band [{fr[0]!r}, {fr[-1]!r}] (cut-off {cut!r}), {len(fr)} samples, values vs explicit call differ by {np.abs(mt - ref).max()!r}'
+    return True, 'ok'
+
+
+PREDS = {'difflim': pred_difflim, 'conv_delta': pred_conv_delta, 'conv_comm': pred_conv_comm, 'conv_linear': pred_conv_linear,
          'conv_sum': pred_conv_sum, 'conv_direct': pred_conv_direct, 'tf_ones': pred_tf_ones, 'tf_list': pred_tf_list,
          'tf_conventions': pred_tf_conventions, 'tf_callable': pred_tf_callable, 'tf_callable_grids': pred_tf_callable_grids, 'tf_psf': pred_tf_psf, 'mtf': pred_mtf,
          'otf_container': pred_otf_container, 'input_variants': pred_input_variants, 'layouts': pred_layouts}
@@ -566,7 +625,11 @@ def _tf_lists(rng, shape, k):
     return out
 
 
-CALL_KINDS = ['jitter', 'smear', 'pixel', 'olpf', 'fx', 'fy', 'ft', 'phase', 'pixel', 'smear', 'olpf', 'const', 'noarg']
+CALL_KINDS = ['jitter', 'smear', 'pixel', 'olpf', 'fx', 'fy', 'ft', 'phase', 'pixel', 'smear', 'olpf', 'const', 'noarg', 'slit', 'pinhole',
+              'slit/x', 'slit/y']
+
+
+_DECK = {}
 
 
 def _calls(rng, dx, k):
@@ -574,7 +637,11 @@ def _calls(rng, dx, k):
     phase, asymmetric functions of fx / fy / ft, a scalar-returning and a zero-parameter callable"""
     out = []
     for _ in range(k):
-        kind = CALL_KINDS[int(rng.integers(len(CALL_KINDS)))]
+        # dealt from a shuffled deck (refilled when empty), so that every kind is executed once per len(CALL_KINDS) draws
+        deck = _DECK.setdefault(id(rng), [])
+        if not deck:
+            deck.extend(CALL_KINDS[int(i)] for i in rng.permutation(len(CALL_KINDS)))
+        kind = deck.pop()
         if kind == 'jitter':
             c = (kind, float(np.round(rng.uniform(0.2, 1.2) * dx, 3)), 0.0)
         elif kind == 'smear':
@@ -584,6 +651,12 @@ def _calls(rng, dx, k):
             c = (kind, 0.0 if z == 1 else w, 0.0 if z == 2 else h)
         elif kind == 'pixel':
             c = (kind, float(np.round(rng.uniform(0.2, 4.0) * dx, 3)), float(np.round(rng.uniform(0.2, 4.0) * dx, 3)))
+        elif kind.startswith('slit'):  # crossed (both widths), x only, y only: each variant is in the deck
+            w = float(np.round(rng.uniform(0.3, 4.0) * dx, 3))
+            h = float(np.round(rng.uniform(0.3, 4.0) * dx, 3))
+            c = ('slit', 0.0 if kind == 'slit/y' else w, 0.0 if kind == 'slit/x' else h)
+        elif kind == 'pinhole':      # radius <= 0.9 dx: argument of jinc below 2 pi 0.9 / sqrt 2 ~ 4 (the driver's series is exact there)
+            c = (kind, float(np.round(rng.uniform(0.2, 0.9) * dx, 3)), 0.0)
         elif kind == 'olpf':
             c = (kind, float(np.round(rng.uniform(0.2, 3.0) * dx, 3)), float(np.round(rng.uniform(0.2, 3.0) * dx, 3)))
         elif kind in ('fx', 'fy'):
@@ -620,6 +693,7 @@ def _parse(row, *counts):
 
 
 def correspondence(ctx):
+    _DECK.clear()
     for name, inp, fname in _corpus():
         _check(ctx, name, inp, {'corpus': fname}, True, 'corpus')
     cv, ot, dg, dt, ft = _impl()
@@ -870,6 +944,31 @@ def correspondence(ctx):
             _check(ctx, 'mtf', {'psf': _l(p), 'dx': 1.0}, dict(desc, psf=kind), True, tag)
             _check(ctx, 'otf_container', {'psf': _l(p), 'dx': 0.5}, dict(desc, psf=kind), True, tag)
 
+    # ---------------- diffraction_limited_mtf: the translated formula (driver) against the real function, and the MTF predicate
+    for rep in range(ctx.scale(12, 60) * (2 if ctx.widen else 1)):
+        fno = float(np.round(rng.choice([1.0, 2.8, 4.0, 8.0, 22.0, rng.uniform(0.7, 40.0)]), 3))
+        wvl = float(np.round(rng.choice([0.4, 0.55, 0.6328, 1.55, 10.6, rng.uniform(0.2, 12.0)]), 4))
+        cut = 1000.0 / (wvl * fno)
+        f = _difflim_freqs(fno, wvl) + [float(x) for x in rng.uniform(-1.6 * cut, 1.6 * cut, size=6)]
+        desc = {'fno': fno, 'wavelength': wvl, 'nfreq': len(f)}
+        _check(ctx, 'difflim', {'fno': fno, 'wavelength': wvl, 'freqs': f, 'samples': int(rng.integers(2, 40))}, desc, True,
+               f'cutoff1e{int(np.floor(np.log10(cut)))}')
+
+        def chk(row, fno=fno, wvl=wvl, f=f, desc=desc):
+            (model,) = _parse(row, len(f))
+            ctx.case('difflim.model', desc, nontrivial=True, tag='formula')
+            try:
+                got = np.asarray(ot.diffraction_limited_mtf(fno, wvl, frequencies=np.asarray(f)), dtype=float)
+            except Exception as ex:
+                ctx.disagree('difflim', desc, f'raised {type(ex).__name__}: {ex}', 'values')
+                return
+            # arccos near the cut-off: |d arccos| ~ sqrt(2 eps) for an eps change of its argument -> absolute 1e-7 there, 1e-12 elsewhere
+            tol = np.where(np.abs(np.abs(np.asarray(f)) / (1000.0 / (wvl * fno)) - 1) < 1e-6, 1e-7, 1e-12)
+            if got.shape != model.shape or not (np.abs(got - model) <= tol).all():    # (a NaN is a disagreement)
+                k = int(np.argmax(~(np.abs(got - model) <= tol))) if got.shape == model.shape else 0
+                ctx.disagree('difflim', dict(desc, f=f[k]), f'{got[k] if got.shape == model.shape else got.shape!r}', f'{model[k]!r}')
+        ask('difflim ' + _fl([fno, wvl] + f), chk)
+
     rows = C.lean_driver('C15', lines)
     for row, fn in zip(rows, todo):
         if row.strip() == 'bad-op':
@@ -903,6 +1002,11 @@ def search(ctx, hints):
         ok, detail = _run_pred(name, inp)
         if not ok:
             return found(name, inp, f'[corpus/{fname}] {detail}')
+    for fno, wvl in ((1.0, 1.0), (4.0, 0.5), (8.0, 0.6328)):
+        inp = {'fno': fno, 'wavelength': wvl, 'freqs': _difflim_freqs(fno, wvl, 5), 'samples': 8}
+        ok, detail = _run_pred('difflim', inp)
+        if not ok:
+            return found('difflim', inp, detail)
     for shape in shapes:
         m, n = shape
         o, h, o2 = _obj(shape), _obj(shape, 3), _obj(shape, 5)
@@ -923,7 +1027,7 @@ def search(ctx, hints):
                 tests.append(('tf_list', {'o': _l(o), 'tfs': [_cl(t) for t in _tf_lists(rng, shape, k)], 'shift': shift}))
         tests.append(('tf_conventions', {'o': _l(o), 'tfs': [_cl(t) for t in _tf_lists(rng, shape, 2)]}))
         for c in (('jitter', 0.7, 0.0), ('smear', 1.3, 0.0), ('pixel', 0.9, 1.1), ('fx', 0.5, 0.5), ('fy', 0.5, -0.5), ('ft', 0.3, 0.2),
-                  ('pixel', 3.0, 2.5), ('olpf', 2.2, 1.9), ('phase', 1.25, -0.5), ('const', -0.75, 0.0), ('noarg', 0.5, 0.0)):
+                  ('pixel', 3.0, 2.5), ('olpf', 2.2, 1.9), ('slit', 2.5, 1.5), ('slit', 0.0, 1.5), ('slit', 2.5, 0.0), ('pinhole', 0.8, 0.0), ('phase', 1.25, -0.5), ('const', -0.75, 0.0), ('noarg', 0.5, 0.0)):
             tests.append(('tf_callable', {'o': _l(o), 'dx': 1.0, 'calls': [list(c)]}))
             for gk, pol in (('1d', False), ('2d', True)):
                 tests.append(('tf_callable_grids', {'o': _l(o), 'dx': 1.0, 'calls': [list(c)], 'grid': gk, 'polar': pol}))
@@ -972,7 +1076,7 @@ def replay(inp):
         print('no replay routine for item', name)
         return False
     shape = np.asarray(inp.get('o', inp.get('psf', [[0]]))).shape
-    print(f'replaying {name} on shape {shape}: ' + ', '.join(f'{k}={v}' for k, v in inp.items() if k in ('pos', 'shift', 'dx', 'calls', 'a', 'b', 'grid', 'polar', 'mixed', 'as_array', 'container', 'variant', 'fn', 'dtype', 'layouts')))
+    print(f'replaying {name} on shape {shape}: ' + ', '.join(f'{k}={v}' for k, v in inp.items() if k in ('pos', 'shift', 'dx', 'calls', 'a', 'b', 'grid', 'polar', 'mixed', 'as_array', 'container', 'variant', 'fn', 'dtype', 'layouts', 'fno', 'wavelength', 'samples')))
     ok, detail = _run_pred(name, inp)
     print(detail)
     return not ok
@@ -992,19 +1096,26 @@ MANIFEST_ENTRY = {
              'transform_psf fed to the shifted convention = conv; image total = object total x DC gain; MTF(0)=1, 0<=MTF<=1 for '
              'non-negative PSFs, MTF point-symmetric (mod shape), OTF Hermitian, MTF=|OTF|, OTF=MTF exp(i PTF) (real '
              'Complex.arg/exp), also when the source takes the angle without normalising; a container goes through the same '
-             'transform as its .data; unit DC gain and evenness of jitter/smear/pixel/OLPF. On the m x n grid the proved sums equal, '
+             'transform as its .data; unit DC gain and evenness of jitter/smear/pixel/OLPF; objects.slit_ft (1 at DC, 2 for crossed slits) and '
+             'pinhole_ft (jinc 0) even; diffraction_limited_mtf with the real arccos / sqrt / abs / pi, for every frequency, '
+             'wavelength and f-number: 1 at zero frequency, within [0, 1], even, 0 at and beyond the cut-off 1/(lambda/1000 F#) '
+             '(PARTIAL: non-increasing in |f| is checked on the real code only). On the m x n grid the proved sums equal, '
              'sample for sample, the executable model double sums and roll index maps (bridge theorems). TRANSLATED each run (every '
              'statement of apply_transfer_functions must be recognised, else the item is reported as TIE-DEGRADED): conv, '
              'apply_transfer_functions (both conventions, loop step, `tf = tf(**kwargs)`, return leg), forward_ft_unit, the grid '
              'call site (axis, shift), transform_psf incl. the container branch, mtf/ptf/otf, the reference index, analytic '
-             'transfer functions. RECOGNISER FACTS only (no Lean content): polar grids from cartesian, keyword table. MODELLED AND '
+             'transfer functions (jitter, smear, pixel, OLPF, slit_ft, pinhole_ft), _difflim_mtf_core and diffraction_limited_mtf '
+             '(extinction, normalised frequency, array and scalar clamp). RECOGNISER FACTS only (no Lean content): polar grids from cartesian, keyword table. MODELLED AND '
              'COMPARED (the driver runs the HAND model; the generated terms are tied to it by the gen_* theorems): pipelines with '
              'an O(N^2) DFT on doubles and direct sums vs prysm on all shapes up to the tier bound, impulses at every position, TF '
-             'lists as real/complex arrays, as callables (sign-changing, complex, scalar-returning, zero-parameter) on built and on '
+             'lists as real/complex arrays, as callables (sign-changing, complex, scalar-returning, zero-parameter, positionally '
+             'curried slit_ft with None widths, pinhole_ft through jinc; kinds dealt from a deck so each runs every time) on built and on '
              'caller-supplied grids, mixed array/callable lists; predicates only on large/prime shapes (to 128x128), float32 / '
-             'integer / Fortran / strided inputs, RichData and duck-typed containers, repeated calls (no aliasing).'),
+             'integer / Fortran / strided inputs, RichData and duck-typed containers, repeated calls (no aliasing); '
+             'diffraction_limited_mtf vs the model formula at / around / beyond the cut-off, scalar and frequencies=None paths.'),
     'note': ('Trusted: scipy.fft computes the DFT sum (the contract the theorems assume, proved satisfiable); fftshift/ifftshift '
              'and fftfreq semantics (compared with the model index maps every run); floating point (1e-9 relative; float32 2e-4). '
-             'Not covered: rounding error growth; prysm.objects; diffraction_limited_mtf and the atmospheric OTF formulas; the '
+             'Not covered: rounding error growth; the rasterisers of prysm.objects (slit, pinhole, siemensstar, ...); the atmospheric '
+             'OTF formulas; the '
              'frequency spacing reported by the returned RichData for non-square PSFs (single dx from axis 0).'),
 }
